@@ -337,6 +337,8 @@ func C11(p *core.Program, r *core.Report) {
 		})
 	}
 	checkNilResetFields(p, r, "pkg/cla/tcpclv4")
+	// a failed Send must not leave its feedback channel registered: the receive loop would block on it
+	checkRegisteredChannelsRemoved(p, r)
 	// "segments none larger than the negotiated size": the size the sender segments with is the negotiated one
 	checkSegmentMruChain(p, r)
 	r.Analysed["error_returning_functions_checked"] = checkErrorsNotSwallowedIn(p, r, "pkg/cla/tcpclv4", utilsPkg, msgsPkg, "pkg/cla/tcpclv4/internal/stages")
